@@ -7,6 +7,7 @@ import (
 	"os/exec"
 	"os/user"
 	"strconv"
+	"sync"
 	"syscall"
 
 	"github.com/creack/pty"
@@ -44,6 +45,9 @@ type hopSession struct {
 
 	usingAuthGrant    bool // true if client authenticated with authgrant
 	authorizedActions []authgrants.Authgrant
+	// every execution request runs in a goroutine of its own: matching a grant
+	// and deleting it must be one step, or two requests use the same grant
+	authorizedActionsLock sync.Mutex
 
 	forward portforwarding.Forward
 }
